@@ -42,6 +42,17 @@ class Variable:
     def values(self):
         return self.arr
 
+    @property
+    def size(self):
+        return self.arr.size
+
+    @property
+    def ndim(self):
+        return len(self.dims)
+
+    def to_numpy(self):
+        return self.arr
+
     def copy(self, deep=False):
         return Variable(self.dims, self.arr if not deep else self.arr.copy(), dict(self.attrs), dict(self.encoding))
 
@@ -215,6 +226,15 @@ class XDataArray:
     def copy(self, deep=True, data=None):
         used('XR-COPY-SHALLOW')
         return XDataArray(_var=self.variable.copy(deep), name=self.name, _coords=self._coords)
+
+    def _iop(self, opname, other):
+        """XR-INPLACE: `da *= x` works on the buffer of the variable (shared with every shallow copy of the dataset), as in xarray"""
+        used('XR-INPLACE')
+        o = other.variable.arr if isinstance(other, XDataArray) else other
+        r = self.variable.arr._iop(opname, o)
+        if r is NotImplemented:
+            return NotImplemented
+        return self
 
     def astype(self, dtype, **kw):
         used('XR-ASTYPE')         # element-wise numpy astype; dims, coordinates, name and attributes kept (keep_attrs defaults to True)
@@ -592,8 +612,28 @@ class XDataset:
         return [(k, self._da(k)) for k in self._vars if k not in self._coord_names]
 
     def _getitem(self, k):
-        if isinstance(k, (list, tuple)):
-            raise Unsupported('dataset[list]')
+        if isinstance(k, list):
+            # XR-GETITEM-LIST: a new dataset with the named variables, plus every coordinate whose dimensions all occur among theirs
+            # (scalar coordinates included), attributes kept
+            used('XR-GETITEM-LIST')
+            for name in k:
+                if is_sym(name) or name not in self._vars:
+                    raise PyRaise(ExcObj(KeyError, (name,)))
+            ds = XDataset()
+            ds.attrs = dict(self.attrs)
+            dims = set()
+            for name in k:
+                ds._vars[name] = self._vars[name]
+                dims |= set(self._vars[name].dims)
+                if name in self._coord_names:
+                    ds._coord_names.add(name)
+            for name in self._vars:
+                if name in self._coord_names and name not in ds._vars and set(self._vars[name].dims) <= dims:
+                    ds._vars[name] = self._vars[name]
+                    ds._coord_names.add(name)
+            return ds
+        if isinstance(k, tuple):
+            raise Unsupported('dataset[tuple]')
         if is_sym(k):
             raise Unsupported('symbolic dataset key')
         try:
@@ -940,11 +980,24 @@ def open_mfdataset(paths, **k):
         for name, v in f._vars.items():
             if name in out._vars:
                 continue
-            out._vars[name] = Variable(v.dims, v.arr, dict(v.attrs), dict(v.encoding))
+            attrs, enc = dict(v.attrs), dict(v.encoding)
+            # XR-DECODE-MOVES-ATTRS: on opening, xarray moves the attributes it decodes (fill values, packing, time units, the CF
+            # `coordinates` list ...) from .attrs to .encoding; which ones depends on the file and the decoding options -- either outcome is
+            # explored for every attribute of these names (time units / calendar only on time variables)
+            for k_ in list(attrs):
+                if k_ in DECODABLE_ATTRIBUTES and (k_ not in ('units', 'calendar') or v.arr.dtype.kind in 'Mm'):
+                    from .stdlib import choice
+                    if choice(f'decoding moves {k_!r} of {name!r} into the encoding'):
+                        enc[k_] = attrs.pop(k_)
+            out._vars[name] = Variable(v.dims, v.arr, attrs, enc)
             if name in f._coord_names:
                 out._coord_names.add(name)
     c.event('open_mfdataset', list(paths), k)
     return out
+
+
+DECODABLE_ATTRIBUTES = ('_FillValue', 'missing_value', 'scale_factor', 'add_offset', '_Unsigned', 'units', 'calendar', 'coordinates',
+                        'grid_mapping', 'dtype')
 
 
 @model
